@@ -7,7 +7,7 @@ UNITS = {'mime': dict(src=MIME, mode='sel', roots=[PARSERAW, TOSTRING])}
 MS = '_ZN8Pistache12match_stringEPKcmRNS_12StreamCursorENS_15CaseSensitivityE'
 US = {MS + '.0': 25, 'gs_same.0': 17, 'gmap_insert.0': 5, 'gs_append.0': 65, 'gs_append.1': 65, '_ZN8Pistache12match_doubleEPdRNS_12StreamCursorE.0': 25, 'gs_from_cstr_copy.0': 10, 'gs_from_cstr_copy.1': 80}
 HARNESSES = []
-for n in range(0, 17):
+for n in range(0, 13):
     HARNESSES.append(dict(name='parse_n%d' % n, units=['mime'], file='c18_mime.c', defs={'H_SAFE': None, 'NN': n, 'CC_DMAX': n + 1}, unwind=n + 3, unwindset=dict(US, **{'_ZN8Pistache12match_doubleEPdRNS_12StreamCursorE.0': n + 3, PARSERAW + '.0': max(2, n - 1)}),
         tiers=('quick', 'thorough') if n in (0, 3, 8) else ('thorough',), witness=(n in (8, 11)), timeout=1500,
         bound='every text of exactly %d bytes (all 256^%d contents) in an exact-size heap block' % (n, n),
